@@ -17,6 +17,10 @@ func init() {
 		Trusted: []string{"net/http.Transport honours ResponseHeaderTimeout/IdleConnTimeout/MaxIdleConnsPerHost/Dial; net.Dialer honours Timeout/KeepAlive",
 			"httputil.ReverseProxy calls ErrorHandler on RoundTrip errors"},
 		Mutants: []mutant{
+			{Name: "connection cap queues requests", File: "transport/transport.go", Old: "\t\tMaxIdleConnsPerHost:   cfg.Proxy.MaxConn,\n", New: "\t\tMaxIdleConnsPerHost:   cfg.Proxy.MaxConn,\n\t\tMaxConnsPerHost:       cfg.Proxy.MaxConn,\n", Expect: "C19.T4"},
+			{Name: "deadline on the whole upstream exchange", File: "proxy/http_proxy.go", Old: "\t\th = newHTTPProxy(targetURL, tr, p.Config.GlobalFlushInterval)\n", New: "\t\th = newHTTPProxy(targetURL, tr, p.Config.GlobalFlushInterval)\n\t\tif d := p.Config.ResponseHeaderTimeout; d > 0 {\n\t\t\tctx, cancel := context.WithTimeout(r.Context(), p.Config.DialTimeout+d)\n\t\t\tdefer cancel()\n\t\t\tr = r.WithContext(ctx)\n\t\t}\n", Expect: "C19.D1", More: []repl{{"import (\n", "import (\n\t\"context\"\n"}}},
+			{Name: "benign: request context wrapped without a deadline", File: "proxy/http_proxy.go", Old: "\t\th = newHTTPProxy(targetURL, tr, p.Config.GlobalFlushInterval)\n", New: "\t\th = newHTTPProxy(targetURL, tr, p.Config.GlobalFlushInterval)\n\t\tctx, cancel := context.WithCancel(r.Context())\n\t\tdefer cancel()\n\t\tr = r.WithContext(ctx)\n", Expect: "", More: []repl{{"import (\n", "import (\n\t\"context\"\n"}}},
+
 			{Name: "self-assignment in SetConfig", File: "transport/transport.go", Old: "func SetConfig(c *config.Config) {\n\tcfg = c", New: "func SetConfig(cfg *config.Config) {\n\tcfg = cfg", Expect: "C19.F1"},
 			{Name: "IdleConnTimeout from KeepAliveTimeout", File: "transport/transport.go", Old: "IdleConnTimeout:       cfg.Proxy.IdleConnTimeout", New: "IdleConnTimeout:       cfg.Proxy.KeepAliveTimeout", Expect: "C19.F2"},
 			{Name: "dial timeout dropped", File: "transport/transport.go", Old: "Timeout:   cfg.Proxy.DialTimeout,", New: "", Expect: "C19.F2"},
@@ -47,6 +51,8 @@ func transportCfgGlobal(c *Ctx, newT *ssa.Function) *ssa.Global {
 }
 
 func runC19(c *Ctx) {
+	runC19D1(c)
+	runC19T4(c)
 	newT := c.fn("transport", "NewTransport")
 	if !c.need("C19.F2", newT, "transport.NewTransport") {
 		return
